@@ -289,6 +289,13 @@ impl Scenario for C19 {
         unsigned.push(format!("{BEGIN_MSG} \n\nx\n{BEGIN_SIG}\n{END_SIG}\n"));
         unsigned.push(format!("\n{BEGIN_MSG}\n\nx\n{BEGIN_SIG}\n{END_SIG}\n"));
         unsigned.push(format!("{}\n\nx\n{BEGIN_SIG}\n{END_SIG}\n", BEGIN_MSG.to_lowercase()));
+        // the marker decorated with invisible or blank characters is NOT the marker
+        let deco = rng.s(&["\u{feff}", "\u{200b}", "\u{a0}", "\u{2028}", "\u{85}", "\t", "\u{c}", "\u{3000}", "\u{b}"]);
+        if rng.chance(1, 2) {
+            unsigned.push(format!("{deco}{BEGIN_MSG}\nHash: SHA256\n\nx\n{BEGIN_SIG}\n{END_SIG}\n"));
+        } else {
+            unsigned.push(format!("{BEGIN_MSG}{deco}\nHash: SHA256\n\nx\n{BEGIN_SIG}\n{END_SIG}\n"));
+        }
         let f = text::DocFlags::swarm(rng);
         let d = text::doc(rng, &f);
         if !d.starts_with(BEGIN_MSG) {
